@@ -196,3 +196,26 @@ def flag_liveness_and_overrides(ctx: Ctx) -> None:
         uses = [c for c in calls_in(fi.node) if kwarg(c, "config") is not None]
         ctx.ob(f"{q.split(':')[1]}: every candidate parser/decoder receives the strict config", bool(uses) and all(unparse(kwarg(c, "config")) == cfg_name for c in uses), at=fi,
                construct="strict config used", msg="the strict copy is built but not used")
+
+
+@rule("C10.R6")
+def unknown_children_of_simple_elements(ctx: Ctx) -> None:
+    """Every node class that rejects an unexpected child element consults fail_on_unknown_properties (or swallows the child)."""
+    base = ctx.repo.cls(f"{PAR}.mixins:XmlNode")
+    n = 0
+    for s_ in base.all_subclasses():
+        if not s_.module.name.startswith(PAR):
+            continue
+        ch = s_.methods.get("child")
+        if ch is None:
+            continue
+        raises = [x for x in walk_no_nested(ch.node) if isinstance(x, ast.Raise)]
+        if not raises:
+            continue
+        n += 1
+        g = build_cfg(ch.node)
+        tests = _flag_tests(g, "fail_on_unknown_properties")
+        ok = bool(tests) and all(g.only_if(g.node_of(r).id, tests[0].id, True) for r in raises)
+        ctx.ob(f"{s_.name}.child raises for an unexpected child only if fail_on_unknown_properties", ok, at=ch, node=raises[0], construct=f"{s_.name}.child raise",
+               msg="an unknown child element inside this element fails the parse even with fail_on_unknown_properties=False (the option promises that unknown elements do not change the result)")
+    ctx.floor("node classes whose child() can raise", n, 3)
